@@ -88,13 +88,18 @@ class Rewrites(ParseHarness):
         self.formpre = []
         for d in self.docs + self.docs2:
             for it in d: form_preconditions(it, self.formpre)
-    def preconditions(self): return list(self.fam.pre) + list(self.fam2.pre) + self.formpre
+        # reader scripts with symbolic, strictly increasing buffer positions (independent for the variant and the canonical representative:
+        # byte offsets are incidental detail too)
+        self.pospre = []
+        self.sc1 = [X.number_positions(X.doc_script(d, 'D%d' % i), 'V%d' % i, self.pospre) for i, d in enumerate(self.docs)]
+        self.sc2 = [X.number_positions(X.doc_script(d, 'D%d' % i), 'C%d' % i, self.pospre) for i, d in enumerate(self.docs2)]
+    def preconditions(self): return list(self.fam.pre) + list(self.fam2.pre) + self.formpre + self.pospre
     def consts(self): return list(self.fam.consts) + list(self.fam2.consts)
     def domains(self): return dict(self.fam.doms, **self.fam2.doms)
     def run(self, m):
         outs = []
-        for docs in (self.docs, self.docs2):
-            root, _ = self.parse_all(m, [X.doc_script(d, 'D%d' % i) for i, d in enumerate(docs)])
+        for scs in (self.sc1, self.sc2):
+            root, _ = self.parse_all(m, [list(sc) for sc in scs])
             outs.append(None if root is None else [render(m, root, o) for o in self.options])
         return {'o1': outs[0], 'o2': outs[1]}
     def assertions(self, m, out):
@@ -119,6 +124,15 @@ class Rewrites(ParseHarness):
         c = self.concretise(a)
         n1 = replay.ask({'op': 'render', 'docs': c['docs'], 'options': list(self.options)})
         n2 = replay.ask({'op': 'render', 'docs': c['rewritten'], 'options': list(self.options)})
+        if n1.get('outputs') == n2.get('outputs') and n1.get('outputs'):
+            # the solver's counterexample may hinge on byte offsets (symbolic in the model): realise other offsets natively through rewrites C11 allows
+            # (a long comment / an XML declaration in front of one of the documents) and compare again
+            for k in range(len(c['docs'])):
+                for padding in ('<!-- ' + 'x' * 300 + ' -->', '<?xml version="1.0"?>\n'):
+                    docs = list(c['docs']); docs[k] = padding + docs[k]
+                    n3 = replay.ask({'op': 'render', 'docs': docs, 'options': list(self.options)})
+                    if n3.get('outputs') != n1.get('outputs'):
+                        return True, {'docs': c['docs'], 'rewritten': docs, 'out1': n1.get('outputs'), 'out2': n3.get('outputs'), 'note': 'differs after inserting a comment/declaration (byte offsets)'}
         return n1.get('outputs') != n2.get('outputs') or not n1.get('outputs'), {'docs': c['docs'], 'rewritten': c['rewritten'], 'out1': n1.get('outputs'), 'out2': n2.get('outputs'), 'steps': [n1.get('steps'), n2.get('steps')]}
 
 # ---------------------------------------------------------------------------------------------- C09
